@@ -664,7 +664,7 @@ func ruleProtectedFirst(c *Ctx) {
 	// the situation: the peer is not a loop-back address (both prefix tests fail) and the server is protected
 	loopTests := 0
 	scen := func(loopback, protected byte) Scenario {
-		return func(info *types.Info, body ast.Node) func(e ast.Expr) byte {
+		return atomsOnly(func(info *types.Info, body ast.Node) func(e ast.Expr) byte {
 			return func(e ast.Expr) byte {
 				call, ok := ast.Unparen(e).(*ast.CallExpr)
 				if !ok {
@@ -682,7 +682,7 @@ func ruleProtectedFirst(c *Ctx) {
 				}
 				return '?'
 			}
-		}
+		})
 	}
 	refused, w := c.scenReach(fg, lit.Body, scen('0', '1'), Loc{}, isRead, nil)
 	local, _ := c.scenReach(fg, lit.Body, scen('1', '1'), Loc{}, isRead, nil)
